@@ -286,7 +286,7 @@ fn u1(ctx: &mut Ctx) {
         if !ctx.take("u1", idx) {
             continue;
         }
-        if idx % 1024 == 0 && ctx.time_up() {
+        if ctx.stop("u1") {
             break;
         }
         let mut r = ctx.rng("u1", idx);
